@@ -120,3 +120,50 @@ def install_entropy_seam():
         return _ORIG_DEFAULT_RNG(seed, *a, **kw)
 
     np.random.default_rng = default_rng
+
+
+# ------------------------------------------------------ uninitialised-memory seam
+# The contents of np.empty / np.empty_like buffers are whatever the allocator left there - a nondeterminism source
+# (results that leak such bytes differ from run to run and between interpreter sessions).  Buffers requested *by
+# mokapot code* are therefore poisoned with a value drawn from the simulator's entropy stream (cf. MSan), so that a
+# leak shows up as a replayable difference between two executions instead of depending on heap history.
+UNINIT_FILLS = {"n": 0}
+_POISON = (0.0, -1.0, 3.0e38, -7.5e-41, 0.5)
+
+
+def install_uninit_seam():
+    import sys
+
+    import numpy as np
+
+    if getattr(np, "_vsim_uninit_seam", False):
+        return
+    from .sched import _mokapot_dir
+
+    moka = _mokapot_dir()
+    orig_empty, orig_empty_like = np.empty, np.empty_like
+
+    def _poison(arr):
+        try:
+            if arr.dtype.kind in "fiu" and arr.size:
+                UNINIT_FILLS["n"] += 1
+                v = _POISON[_ENTROPY.randrange(len(_POISON))]
+                arr.fill(v if arr.dtype.kind == "f" else int(v) % 97)
+        except Exception:  # noqa: BLE001
+            pass
+        return arr
+
+    def empty(*a, **kw):
+        arr = orig_empty(*a, **kw)
+        if sys._getframe(1).f_code.co_filename.startswith(moka):
+            _poison(arr)
+        return arr
+
+    def empty_like(*a, **kw):
+        arr = orig_empty_like(*a, **kw)
+        if sys._getframe(1).f_code.co_filename.startswith(moka):
+            _poison(arr)
+        return arr
+
+    np.empty, np.empty_like = empty, empty_like
+    np._vsim_uninit_seam = True
